@@ -4,6 +4,7 @@ package main
 // test injected with `go test -overlay`, and check the contract's postconditions / panic freedom.
 
 import (
+	"encoding/hex"
 	"fmt"
 	"go/types"
 	"math/big"
@@ -299,142 +300,189 @@ func concreteReplay(dir string, o *Obligation, progs map[string]*Program) (bool,
 	if err != nil {
 		return false, err.Error()
 	}
-	// 3. generate the test
-	var sb strings.Builder
-	pkgName := fn.Pkg.Pkg.Name()
-	fmt.Fprintf(&sb, "package %s\n\nimport (\n\t\"fmt\"\n\t\"testing\"\n)\n\n", pkgName)
-	sb.WriteString("// generated by gvc from a solver model; see REPLAY.md\n\n")
-	sb.WriteString(replayHelpers)
-	fmt.Fprintf(&sb, "func TestVerifReplay(t *testing.T) {\n")
-	var inputsDesc []string
-	for _, p := range params {
-		ts := types.TypeString(p.typ, qual)
-		switch v := p.val.(type) {
-		case *Term:
-			if v.Sort == SBool {
-				fmt.Fprintf(&sb, "\tvar %s %s = %v\n", p.name, ts, get(v).Sign() != 0)
-			} else {
-				k, _ := basicKind(p.typ)
-				val := get(v)
-				if val.Cmp(k.lo()) < 0 || val.Cmp(k.hi()) > 0 {
-					return false, "model-value-outside-type-range"
-				}
-				fmt.Fprintf(&sb, "\tvar %s %s = %s\n", p.name, ts, val.String())
-			}
-			inputsDesc = append(inputsDesc, fmt.Sprintf("%s=%s", p.name, get(v)))
-		case StringV:
-			l := get(v.Len).Int64()
-			if l > maxReplayLen {
-				return false, "model-needs-a-huge-allocation"
-			}
-			fmt.Fprintf(&sb, "\tvar %s %s = %s(make([]byte, %d))\n", p.name, ts, ts, l)
-			inputsDesc = append(inputsDesc, fmt.Sprintf("len(%s)=%d", p.name, l))
-		case SliceV:
-			inf := infos[p.name]
-			if get(v.Obj).Sign() == 0 && inf.c == 0 {
-				fmt.Fprintf(&sb, "\tvar %s %s\n", p.name, ts)
-				inputsDesc = append(inputsDesc, p.name+"=nil")
-				continue
-			}
-			ets := types.TypeString(v.Elem, qual)
-			var elems []string
-			for i := int64(0); i < inf.c; i++ {
-				key := fmt.Sprintf("(select (select |%s@0| %s) (+ %s %d))", func() string { h, _, _ := x.elemHeap(v.Elem); return h }(), x.b.sexpr(v.Obj, nil), x.b.sexpr(v.Off, nil), i)
-				val := new(big.Int)
-				if s, ok := vals2[key]; ok {
-					if b, ok := smtInt(s); ok {
-						val = b
-					}
-				}
-				if k, ok := basicKind(v.Elem); ok && k.bits > 0 && !k.signed {
-					// memory the contract says nothing about may get any integer in the model
-					val = new(big.Int).Mod(val, pow2(uint(k.bits)))
-				}
-				elems = append(elems, val.String())
-			}
-			fmt.Fprintf(&sb, "\t%s_backing := []%s{%s}\n", p.name, ets, strings.Join(elems, ", "))
-			fmt.Fprintf(&sb, "\tvar %s %s = %s_backing[:%d:%d]\n", p.name, ts, p.name, inf.l, inf.c)
-			d := strings.Join(elems, " ")
-			if len(d) > 200 {
-				d = d[:200] + "..."
-			}
-			inputsDesc = append(inputsDesc, fmt.Sprintf("%s=[len %d cap %d: %s]", p.name, inf.l, inf.c, d))
-		}
-	}
-	// saved copies for old()
-	for _, p := range params {
-		if _, ok := p.val.(SliceV); ok {
-			fmt.Fprintf(&sb, "\told_%s := append(%s(nil), %s[:cap(%s)]...)[:len(%s)]\n\t_ = old_%s\n", p.name, types.TypeString(p.typ, qual), p.name, p.name, p.name, p.name)
-		} else {
-			fmt.Fprintf(&sb, "\told_%s := %s\n\t_ = old_%s\n", p.name, p.name, p.name)
-		}
-	}
-	// the call
-	sig := fn.Signature
-	var rnames []string
-	for i := 0; i < sig.Results().Len(); i++ {
-		rnames = append(rnames, fmt.Sprintf("r%d", i))
-	}
-	var callee string
-	var args []string
-	if sig.Recv() != nil {
-		callee = params[0].name + "." + fn.Name()
-		for _, p := range params[1:] {
-			args = append(args, p.name)
-		}
-	} else {
-		callee = fn.Name()
+	// 3. generate the test (override: witness bytes for a slice parameter instead of the model's)
+	var lastInputs []string
+	gen := func(override map[string][]byte) (string, bool, string) {
+		var sb strings.Builder
+		pkgName := fn.Pkg.Pkg.Name()
+		fmt.Fprintf(&sb, "package %s\n\nimport (\n\t\"fmt\"\n\t\"testing\"\n)\n\n", pkgName)
+		sb.WriteString("// generated by gvc from a solver model; see REPLAY.md\n\n")
+		sb.WriteString(replayHelpers)
+		fmt.Fprintf(&sb, "func TestVerifReplay(t *testing.T) {\n")
+		var inputsDesc []string
 		for _, p := range params {
-			args = append(args, p.name)
-		}
-	}
-	if sig.Variadic() && len(args) > 0 {
-		args[len(args)-1] += "..."
-	}
-	for i, rn := range rnames {
-		fmt.Fprintf(&sb, "\tvar %s %s\n\t_ = %s\n", rn, types.TypeString(sig.Results().At(i).Type(), qual), rn)
-	}
-	sb.WriteString("\tpanicked := func() (p interface{}) {\n\t\tdefer func() { p = recover() }()\n\t\t")
-	if len(rnames) > 0 {
-		sb.WriteString(strings.Join(rnames, ", ") + " = ")
-	}
-	fmt.Fprintf(&sb, "%s(%s)\n\t\treturn nil\n\t}()\n", callee, strings.Join(args, ", "))
-	ct := x.contract
-	allowPanic := ct != nil && (ct.MayPanic || ct.PanicsIff != nil)
-	if !allowPanic {
-		sb.WriteString("\tif panicked != nil {\n\t\tt.Fatalf(\"REPLAY-VIOLATION panic: %v\", panicked)\n\t}\n")
-	} else {
-		sb.WriteString("\tif panicked != nil {\n\t\tfmt.Println(\"panic (allowed by the contract):\", panicked)\n\t\treturn\n\t}\n")
-	}
-	// quantifier range of the executable postconditions
-	sb.WriteString("\tvBound = 8\n")
-	for _, p := range params {
-		if _, ok := p.val.(SliceV); ok {
-			fmt.Fprintf(&sb, "\tif cap(%s)+2 > vBound {\n\t\tvBound = cap(%s) + 2\n\t}\n", p.name, p.name)
-		}
-	}
-	for i, rn := range rnames {
-		if kindOfType(sig.Results().At(i).Type()) == "slice" {
-			fmt.Fprintf(&sb, "\tif cap(%s)+2 > vBound {\n\t\tvBound = cap(%s) + 2\n\t}\n", rn, rn)
-		}
-	}
-	// postconditions
-	tr := &goTranslator{sig: sig, params: params, qual: qual}
-	skipped := 0
-	if ct != nil {
-		for i, e := range ct.Ensures {
-			code, kind, ok := tr.expr(e, false)
-			if !ok || kind != "bool" {
-				skipped++
-				fmt.Fprintf(&sb, "\t// post%d not executable: %s\n", i+1, e.String())
-				continue
+			ts := types.TypeString(p.typ, qual)
+			switch v := p.val.(type) {
+			case *Term:
+				if v.Sort == SBool {
+					fmt.Fprintf(&sb, "\tvar %s %s = %v\n", p.name, ts, get(v).Sign() != 0)
+				} else {
+					k, _ := basicKind(p.typ)
+					val := get(v)
+					if val.Cmp(k.lo()) < 0 || val.Cmp(k.hi()) > 0 {
+						return "", false, "model-value-outside-type-range"
+					}
+					fmt.Fprintf(&sb, "\tvar %s %s = %s\n", p.name, ts, val.String())
+				}
+				inputsDesc = append(inputsDesc, fmt.Sprintf("%s=%s", p.name, get(v)))
+			case StringV:
+				l := get(v.Len).Int64()
+				if l > maxReplayLen {
+					return "", false, "model-needs-a-huge-allocation"
+				}
+				fmt.Fprintf(&sb, "\tvar %s %s = %s(make([]byte, %d))\n", p.name, ts, ts, l)
+				inputsDesc = append(inputsDesc, fmt.Sprintf("len(%s)=%d", p.name, l))
+			case SliceV:
+				inf := infos[p.name]
+				if ov, ok := override[p.name]; ok {
+					var elems []string
+					for _, c := range ov {
+						elems = append(elems, fmt.Sprint(c))
+					}
+					fmt.Fprintf(&sb, "\t%s_backing := []%s{%s}\n", p.name, types.TypeString(v.Elem, qual), strings.Join(elems, ", "))
+					fmt.Fprintf(&sb, "\tvar %s %s = %s_backing[:%d:%d]\n", p.name, ts, p.name, len(ov), len(ov))
+					inputsDesc = append(inputsDesc, fmt.Sprintf("%s=[witness %x]", p.name, ov))
+					continue
+				}
+				if get(v.Obj).Sign() == 0 && inf.c == 0 {
+					fmt.Fprintf(&sb, "\tvar %s %s\n", p.name, ts)
+					inputsDesc = append(inputsDesc, p.name+"=nil")
+					continue
+				}
+				ets := types.TypeString(v.Elem, qual)
+				var elems []string
+				for i := int64(0); i < inf.c; i++ {
+					key := fmt.Sprintf("(select (select |%s@0| %s) (+ %s %d))", func() string { h, _, _ := x.elemHeap(v.Elem); return h }(), x.b.sexpr(v.Obj, nil), x.b.sexpr(v.Off, nil), i)
+					val := new(big.Int)
+					if s, ok := vals2[key]; ok {
+						if b, ok := smtInt(s); ok {
+							val = b
+						}
+					}
+					if k, ok := basicKind(v.Elem); ok && k.bits > 0 && !k.signed {
+						// memory the contract says nothing about may get any integer in the model
+						val = new(big.Int).Mod(val, pow2(uint(k.bits)))
+					}
+					elems = append(elems, val.String())
+				}
+				fmt.Fprintf(&sb, "\t%s_backing := []%s{%s}\n", p.name, ets, strings.Join(elems, ", "))
+				fmt.Fprintf(&sb, "\tvar %s %s = %s_backing[:%d:%d]\n", p.name, ts, p.name, inf.l, inf.c)
+				d := strings.Join(elems, " ")
+				if len(d) > 200 {
+					d = d[:200] + "..."
+				}
+				inputsDesc = append(inputsDesc, fmt.Sprintf("%s=[len %d cap %d: %s]", p.name, inf.l, inf.c, d))
 			}
-			fmt.Fprintf(&sb, "\tif !(%s) {\n\t\tt.Fatalf(\"REPLAY-VIOLATION post%d is false: %%s\", %q)\n\t}\n", code, i+1, e.String())
+		}
+		// saved copies for old()
+		for _, p := range params {
+			if _, ok := p.val.(SliceV); ok {
+				fmt.Fprintf(&sb, "\told_%s := append(%s(nil), %s[:cap(%s)]...)[:len(%s)]\n\t_ = old_%s\n", p.name, types.TypeString(p.typ, qual), p.name, p.name, p.name, p.name)
+			} else {
+				fmt.Fprintf(&sb, "\told_%s := %s\n\t_ = old_%s\n", p.name, p.name, p.name)
+			}
+		}
+		// the call
+		sig := fn.Signature
+		var rnames []string
+		for i := 0; i < sig.Results().Len(); i++ {
+			rnames = append(rnames, fmt.Sprintf("r%d", i))
+		}
+		var callee string
+		var args []string
+		if sig.Recv() != nil {
+			callee = params[0].name + "." + fn.Name()
+			for _, p := range params[1:] {
+				args = append(args, p.name)
+			}
+		} else {
+			callee = fn.Name()
+			for _, p := range params {
+				args = append(args, p.name)
+			}
+		}
+		if sig.Variadic() && len(args) > 0 {
+			args[len(args)-1] += "..."
+		}
+		for i, rn := range rnames {
+			fmt.Fprintf(&sb, "\tvar %s %s\n\t_ = %s\n", rn, types.TypeString(sig.Results().At(i).Type(), qual), rn)
+		}
+		sb.WriteString("\tpanicked := func() (p interface{}) {\n\t\tdefer func() { p = recover() }()\n\t\t")
+		if len(rnames) > 0 {
+			sb.WriteString(strings.Join(rnames, ", ") + " = ")
+		}
+		fmt.Fprintf(&sb, "%s(%s)\n\t\treturn nil\n\t}()\n", callee, strings.Join(args, ", "))
+		ct := x.contract
+		allowPanic := ct != nil && (ct.MayPanic || ct.PanicsIff != nil)
+		if !allowPanic {
+			sb.WriteString("\tif panicked != nil {\n\t\tt.Fatalf(\"REPLAY-VIOLATION panic: %v\", panicked)\n\t}\n")
+		} else {
+			sb.WriteString("\tif panicked != nil {\n\t\tfmt.Println(\"panic (allowed by the contract):\", panicked)\n\t\treturn\n\t}\n")
+		}
+		// quantifier range of the executable postconditions
+		sb.WriteString("\tvBound = 8\n")
+		for _, p := range params {
+			if _, ok := p.val.(SliceV); ok {
+				fmt.Fprintf(&sb, "\tif cap(%s)+2 > vBound {\n\t\tvBound = cap(%s) + 2\n\t}\n", p.name, p.name)
+			}
+		}
+		for i, rn := range rnames {
+			if kindOfType(sig.Results().At(i).Type()) == "slice" {
+				fmt.Fprintf(&sb, "\tif cap(%s)+2 > vBound {\n\t\tvBound = cap(%s) + 2\n\t}\n", rn, rn)
+			}
+		}
+		// postconditions
+		tr := &goTranslator{sig: sig, params: params, qual: qual}
+		skipped := 0
+		if ct != nil {
+			for i, e := range ct.Ensures {
+				code, kind, ok := tr.expr(e, false)
+				if !ok || kind != "bool" {
+					skipped++
+					fmt.Fprintf(&sb, "\t// post%d not executable: %s\n", i+1, e.String())
+					continue
+				}
+				fmt.Fprintf(&sb, "\tif !(%s) {\n\t\tt.Fatalf(\"REPLAY-VIOLATION post%d is false: %%s\", %q)\n\t}\n", code, i+1, e.String())
+			}
+		}
+		sb.WriteString("\tfmt.Println(\"replay: no violation on these inputs\")\n}\n")
+		lastInputs = inputsDesc
+		return sb.String(), true, ""
+	}
+	candidates := []map[string][]byte{nil}
+	if x.contract != nil {
+		for pn, hexes := range x.contract.Witness {
+			for _, hx := range hexes {
+				if bs, err := hex.DecodeString(hx); err == nil {
+					candidates = append(candidates, map[string][]byte{pn: bs})
+				}
+			}
 		}
 	}
-	sb.WriteString("\tfmt.Println(\"replay: no violation on these inputs\")\n}\n")
+	var inputsDesc []string
 	testFile := filepath.Join(dir, "replay_test.go")
-	os.WriteFile(testFile, []byte(sb.String()), 0o644)
+	for ci, cand := range candidates {
+		src, okGen, why := gen(cand)
+		if !okGen {
+			return false, why
+		}
+		os.WriteFile(testFile, []byte(src), 0o644)
+		inputsDesc = lastInputs
+		if ci == len(candidates)-1 {
+			break
+		}
+		os.WriteFile(filepath.Join(dir, "package.txt"), []byte(fn.Pkg.Pkg.Path()+"\n"+x.prog.Tags+"\n"), 0o644)
+		if ok, out := runReplayTest(dir); ok {
+			os.WriteFile(filepath.Join(dir, "inputs.txt"), []byte(strings.Join(inputsDesc, "\n")+"\n"), 0o644)
+			os.WriteFile(filepath.Join(dir, "replay_output.txt"), []byte(out), 0o644)
+			m := regexp.MustCompile(`REPLAY-VIOLATION[^\n]*`).FindString(out)
+			how := "model input"
+			if cand != nil {
+				how = "witness search"
+			}
+			return true, m + " (" + how + ") inputs: " + strings.Join(inputsDesc, "; ")
+		}
+	}
 	os.WriteFile(filepath.Join(dir, "package.txt"), []byte(fn.Pkg.Pkg.Path()+"\n"+x.prog.Tags+"\n"), 0o644)
 	os.WriteFile(filepath.Join(dir, "inputs.txt"), []byte(strings.Join(inputsDesc, "\n")+"\n"), 0o644)
 	ok, out := runReplayTest(dir)
